@@ -20,7 +20,7 @@ import (
 
 func TestVerifC09Sockets(t *testing.T) {
 	L := ev.Begin("C09", "c09-sockets", "exploration",
-		"real loopback sockets through the real ServeTCP of tcp / tcp+sni / tcp-dynamic: the finishing side {client uploads then closes, upstream sends then closes} x size {64 kB, 8 MB (more than the socket buffers hold)} x a receiver that reads slowly (64 kB per ms); oracle: the receiver gets every byte (sha256) followed by a clean EOF, not a reset; and through tcp.Server with read/write timeouts: a client silent for longer than the write timeout can still send afterwards. non-trivial = every scenario")
+		"real loopback sockets through the real ServeTCP of tcp / tcp+sni / tcp-dynamic: the finishing side {client uploads then closes, upstream sends then closes} x size {64 kB, 8 MB (more than the socket buffers hold)} x a receiver that reads slowly (64 kB per ms); oracle: the receiver gets every byte (sha256) followed by a clean EOF, not a reset; and through tcp.Server with read/write timeouts: a client silent for longer than the write timeout can still send afterwards, and data a client sends after the upstream half-closed still arrives. non-trivial = every scenario")
 	for _, kind := range []string{"tcp", "sni", "dynamic"} {
 		for _, dir := range []string{"upload", "download"} {
 			for _, size := range []int{64 << 10, 8 << 20} {
@@ -232,6 +232,67 @@ func TestVerifC09Sockets(t *testing.T) {
 			srv.Close()
 			up.Close()
 		}
+	}
+	// through tcp.Server (the connection the handler gets is the server's wrapper): the upstream says all it has to
+	// say, half-closes and keeps reading; what the client sends afterwards still has to arrive
+	for _, kind := range []string{"tcp", "dynamic"} {
+		up, err := net.Listen("tcp", "127.0.0.1:0")
+		if err != nil {
+			panic(err)
+		}
+		tb, err := route.NewTable(bytes.NewBufferString(fmt.Sprintf("route add svc :1234 tcp://%s opts \"proto=tcp\"\n", up.Addr().String())))
+		if err != nil {
+			panic(err)
+		}
+		var target *route.Target
+		for _, rs := range tb {
+			target = rs[0].Targets[0]
+		}
+		lookup := func(string) *route.Target { return target }
+		var h Handler = &Proxy{Lookup: lookup, DialTimeout: 5 * time.Second}
+		if kind == "dynamic" {
+			h = &DynamicProxy{Lookup: lookup, DialTimeout: 5 * time.Second}
+		}
+		front, err := net.Listen("tcp", "127.0.0.1:0")
+		if err != nil {
+			panic(err)
+		}
+		srv := &Server{Handler: h}
+		go srv.Serve(front)
+		got := make(chan string, 1)
+		go func() {
+			c, err := up.Accept()
+			if err != nil {
+				got <- "accept: " + err.Error()
+				return
+			}
+			defer c.Close()
+			c.Write([]byte("all-i-have-to-say"))
+			c.(*net.TCPConn).CloseWrite()
+			c.SetReadDeadline(time.Now().Add(20 * time.Second))
+			b, _ := io.ReadAll(c)
+			got <- string(b)
+		}()
+		cl, err := net.Dial("tcp", front.Addr().String())
+		if err != nil {
+			panic(err)
+		}
+		cl.SetDeadline(time.Now().Add(20 * time.Second))
+		cl.Write([]byte("PING"))
+		fromUp, _ := io.ReadAll(cl) // the reply and the upstream's end of stream
+		cl.Write([]byte("LATEDATA"))
+		cl.(*net.TCPConn).CloseWrite()
+		res := <-got
+		cl.Close()
+		L.Case()
+		L.NontrivialKey(fmt.Sprint("server-wrapper-half-close", kind))
+		d := map[string]interface{}{"listener": kind + " through tcp.Server", "client_got": string(fromUp), "upstream_got": res}
+		L.Sample(d)
+		if string(fromUp) != "all-i-have-to-say" || res != "PINGLATEDATA" {
+			L.Violation("data-sent-after-the-upstream-half-closed-not-delivered/"+kind, d)
+		}
+		srv.Close()
+		up.Close()
 	}
 	L.End(true)
 }
